@@ -318,11 +318,16 @@ pub fn raw_close(fd: i32) -> i32 {
 
 static FAKE_INOTIFY: std::sync::atomic::AtomicBool = std::sync::atomic::AtomicBool::new(false);
 static FAKE_INOTIFY_FDS: Mutex<Vec<(c_int, c_int)>> = Mutex::new(Vec::new());
+/// (instance, device, inode, watch descriptor): watching the same inode again gives the same descriptor.
+static FAKE_INOTIFY_WATCHES: Mutex<Vec<(c_int, u64, u64, c_int)>> = Mutex::new(Vec::new());
 
 pub fn fake_inotify(on: bool) {
     FAKE_INOTIFY.store(on, Ordering::SeqCst);
     if !on {
-        crate::talloc::untracked(|| FAKE_INOTIFY_FDS.lock().unwrap_or_else(|e| e.into_inner()).clear());
+        crate::talloc::untracked(|| {
+            FAKE_INOTIFY_FDS.lock().unwrap_or_else(|e| e.into_inner()).clear();
+            FAKE_INOTIFY_WATCHES.lock().unwrap_or_else(|e| e.into_inner()).clear();
+        });
     }
 }
 
@@ -344,6 +349,7 @@ pub unsafe extern "C" fn inotify_init1(flags: c_int) -> c_int {
         // Descriptor numbers are reused: forget the instance that had this one before.
         g.retain(|(f, _)| *f != fd);
         g.push((fd, 0));
+        FAKE_INOTIFY_WATCHES.lock().unwrap_or_else(|e| e.into_inner()).retain(|w| w.0 != fd);
     });
     fd
 }
@@ -352,12 +358,22 @@ pub unsafe extern "C" fn inotify_init1(flags: c_int) -> c_int {
 pub unsafe extern "C" fn inotify_add_watch(fd: c_int, path: *const libc::c_char, mask: u32) -> c_int {
     CALLS.fetch_add(1, Ordering::Relaxed);
     if FAKE_INOTIFY.load(Ordering::SeqCst) {
+        let mut st: libc::stat = unsafe { std::mem::zeroed() };
+        let have_stat = unsafe { libc::lstat(path, &mut st) } == 0;
         let wd = crate::talloc::untracked(|| {
             let mut g = FAKE_INOTIFY_FDS.lock().unwrap_or_else(|e| e.into_inner());
-            g.iter_mut().find(|(f, _)| *f == fd).map(|e| {
-                e.1 += 1;
-                e.1
-            })
+            let mut w = FAKE_INOTIFY_WATCHES.lock().unwrap_or_else(|e| e.into_inner());
+            let inst = g.iter_mut().find(|(f, _)| *f == fd)?;
+            if have_stat {
+                if let Some(old) = w.iter().find(|x| x.0 == fd && x.1 == st.st_dev as u64 && x.2 == st.st_ino as u64) {
+                    return Some(old.3);
+                }
+            }
+            inst.1 += 1;
+            if have_stat {
+                w.push((fd, st.st_dev as u64, st.st_ino as u64, inst.1));
+            }
+            Some(inst.1)
         });
         if let Some(wd) = wd {
             return wd;
